@@ -1,6 +1,274 @@
-From Coq Require Import NArith List Bool.
+(* C15 -- lemmas about the new query system's Predicate operations, over the REGENERATED definitions
+   (Gen/PredGen.v).  Everything after the two `impl_*_sound` lemmas uses only those lemmas and the fold
+   structure of the callers, so the proofs survive harmless rewrites of the bodies of _impl_and/_impl_or. *)
+From Coq Require Import NArith List Bool Lia.
 From V Require Import Base.Tri Model.Pred Gen.PredGen.
 Import ListNotations.
 
-Lemma const_true_p : forall v, eval3 v (py_from_bool true) = TT.
+Local Arguments tri_and : simpl never.
+Local Arguments tri_or : simpl never.
+Local Arguments tri_not : simpl never.
+
+(* ---- Kleene algebra facts ------------------------------------------------------------------------ *)
+Ltac tri_cases := intros; repeat match goal with x : tri |- _ => destruct x end; reflexivity.
+
+Lemma tri_and_assoc : forall a b c, tri_and a (tri_and b c) = tri_and (tri_and a b) c. Proof. tri_cases. Qed.
+Lemma tri_or_assoc : forall a b c, tri_or a (tri_or b c) = tri_or (tri_or a b) c. Proof. tri_cases. Qed.
+Lemma tri_and_comm : forall a b, tri_and a b = tri_and b a. Proof. tri_cases. Qed.
+Lemma tri_or_comm : forall a b, tri_or a b = tri_or b a. Proof. tri_cases. Qed.
+Lemma tri_and_idem : forall a, tri_and a a = a. Proof. tri_cases. Qed.
+Lemma tri_and_TT_r : forall a, tri_and a TT = a. Proof. tri_cases. Qed.
+Lemma tri_and_TT_l : forall a, tri_and TT a = a. Proof. tri_cases. Qed.
+Lemma tri_and_FF_r : forall a, tri_and a FF = FF. Proof. tri_cases. Qed.
+Lemma tri_or_FF_r : forall a, tri_or a FF = a. Proof. tri_cases. Qed.
+Lemma tri_or_FF_l : forall a, tri_or FF a = a. Proof. tri_cases. Qed.
+Lemma tri_or_TT_l : forall a, tri_or TT a = TT. Proof. tri_cases. Qed.
+Lemma tri_or_TT_r : forall a, tri_or a TT = TT. Proof. tri_cases. Qed.
+Lemma tri_not_invol : forall a, tri_not (tri_not a) = a. Proof. tri_cases. Qed.
+Lemma tri_not_and : forall a b, tri_not (tri_and a b) = tri_or (tri_not a) (tri_not b). Proof. tri_cases. Qed.
+Lemma tri_not_or : forall a b, tri_not (tri_or a b) = tri_and (tri_not a) (tri_not b). Proof. tri_cases. Qed.
+Lemma tri_or_and_distr_l : forall x a b, tri_or x (tri_and a b) = tri_and (tri_or x a) (tri_or x b). Proof. tri_cases. Qed.
+Lemma tri_or_and_distr_r : forall x a b, tri_or (tri_and a b) x = tri_and (tri_or a x) (tri_or b x). Proof. tri_cases. Qed.
+Lemma tri_and_or_distr_l : forall x a b, tri_and x (tri_or a b) = tri_or (tri_and x a) (tri_and x b). Proof. tri_cases. Qed.
+
+(* ---- evaluation of concatenations ------------------------------------------------------------------ *)
+Lemma any3_app : forall v g1 g2, any3 v (g1 ++ g2) = tri_or (any3 v g1) (any3 v g2).
+Proof.
+  intros v g1 g2. induction g1 as [|l g1 IH]; simpl.
+  - now rewrite tri_or_FF_l.
+  - fold (any3 v (g1 ++ g2)). fold (any3 v g1). rewrite IH. apply tri_or_assoc.
+Qed.
+
+Lemma eval3_cons : forall v g p, eval3 v (g :: p) = tri_and (any3 v g) (eval3 v p).
 Proof. reflexivity. Qed.
+
+Lemma eval3_app : forall v a b, eval3 v (a ++ b) = tri_and (eval3 v a) (eval3 v b).
+Proof.
+  intros v a b. induction a as [|g a IH]; simpl.
+  - now rewrite tri_and_TT_l.
+  - fold (eval3 v (a ++ b)). fold (eval3 v a). rewrite IH. apply tri_and_assoc.
+Qed.
+
+Lemma eval3_single : forall v l, eval3 v [[l]] = lit_eval v l.
+Proof. intros. simpl. now rewrite tri_or_FF_r, tri_and_TT_r. Qed.
+
+Lemma eval3_true_p : forall v, eval3 v [] = TT. Proof. reflexivity. Qed.
+Lemma eval3_false_p : forall v, eval3 v [[]] = FF. Proof. reflexivity. Qed.
+
+Lemma invert_sound_p : forall v l, lit_eval v (py_invert l) = tri_not (lit_eval v l).
+Proof. intros v [a|a]; simpl; auto using eq_sym, tri_not_invol. Qed.
+
+Lemma invert_invol_p : forall l, py_invert (py_invert l) = l.
+Proof. now intros [a|a]. Qed.
+
+(* an empty OR-group makes the whole predicate false *)
+Lemma py_all_false : forall v (p : cnf), py_all p = false -> eval3 v p = FF.
+Proof.
+  intros v p. induction p as [|g p IH]; simpl; [discriminate|].
+  destruct g as [|l g]; simpl.
+  - reflexivity.
+  - intros H. fold (eval3 v p). rewrite (IH H). apply tri_and_FF_r.
+Qed.
+
+(* ---- the two primitive combinators ------------------------------------------------------------------ *)
+Lemma impl_and_sound_p : forall v same a b, (same = true -> b = a) ->
+  eval3 v (py_impl_and same a b) = tri_and (eval3 v a) (eval3 v b).
+Proof.
+  intros v same a b H. unfold py_impl_and. destruct same; simpl.
+  - rewrite (H eq_refl). now rewrite tri_and_idem.
+  - apply eval3_app.
+Qed.
+
+Lemma eval3_map_app : forall v x b, eval3 v (map (fun y => x ++ y) b) = tri_or (any3 v x) (eval3 v b).
+Proof.
+  intros v x b. induction b as [|y b IH]; simpl.
+  - now rewrite tri_or_TT_r.
+  - fold (eval3 v (map (fun y0 => x ++ y0) b)). fold (eval3 v b). rewrite IH, any3_app.
+    now rewrite tri_or_and_distr_l.
+Qed.
+
+Lemma impl_or_shape_p : forall a b, py_impl_or a b = p_impl_or a b.
+Proof.
+  intros a b. unfold py_impl_or, p_impl_or. induction a as [|x a IH]; simpl; [reflexivity|].
+  rewrite map_app, map_map. simpl. now rewrite IH.
+Qed.
+
+Lemma impl_or_sound_p : forall v a b, eval3 v (py_impl_or a b) = tri_or (eval3 v a) (eval3 v b).
+Proof.
+  intros v a b. rewrite impl_or_shape_p. unfold p_impl_or. induction a as [|x a IH]; simpl.
+  - now rewrite tri_or_TT_l.
+  - fold (eval3 v a). rewrite eval3_app, eval3_map_app, IH. now rewrite tri_or_and_distr_r.
+Qed.
+
+(* ---- constants ------------------------------------------------------------------------------------- *)
+Lemma from_bool_sound_p : forall v b, eval3 v (py_from_bool b) = tri_of_bool b.
+Proof. intros v []; reflexivity. Qed.
+Lemma from_bool_true_p : py_from_bool true = []. Proof. reflexivity. Qed.
+Lemma from_bool_false_p : py_from_bool false = [[]]. Proof. reflexivity. Qed.
+
+(* ---- logical_and (n-ary, with the collapse rule) ----------------------------------------------------- *)
+Lemma and_fold_sound : forall v args acc, flags_ok py_impl_and acc args ->
+  eval3 v (fold_left (fun operands arg => py_impl_and (fst arg) operands (snd arg)) args acc)
+  = and_all3 (eval3 v acc) (map (fun a => eval3 v (snd a)) args).
+Proof.
+  intros v args. induction args as [|[s b] args IH]; intros acc H; simpl in *.
+  - reflexivity.
+  - destruct H as [Hs Hr]. rewrite (IH _ Hr). unfold and_all3. simpl. now rewrite impl_and_sound_p.
+Qed.
+
+Lemma collapse_sound : forall v (p : cnf), eval3 v (if negb (py_all p) then [[]] else p) = eval3 v p.
+Proof.
+  intros v p. destruct (py_all p) eqn:E; simpl; [reflexivity|]. now rewrite (py_all_false v p E).
+Qed.
+
+Lemma logical_and_sound_p : forall v self args, flags_ok py_impl_and self args ->
+  eval3 v (py_logical_and self args) = and_all3 (eval3 v self) (map (fun a => eval3 v (snd a)) args).
+Proof.
+  intros v self args H. unfold py_logical_and. cbv zeta.
+  rewrite collapse_sound. now apply and_fold_sound.
+Qed.
+
+Lemma logical_and_collapsed_p : forall self args,
+  py_all (py_logical_and self args) = true \/ py_logical_and self args = [[]].
+Proof.
+  intros. unfold py_logical_and. cbv zeta.
+  set (x := fold_left _ args self).
+  destruct (py_all x) eqn:E; simpl; auto.
+Qed.
+
+Lemma logical_and2_sound_p : forall v same a b, (same = true -> b = a) ->
+  eval3 v (py_logical_and a [(same, b)]) = tri_and (eval3 v a) (eval3 v b).
+Proof. intros. rewrite logical_and_sound_p; simpl; auto. Qed.
+
+(* ---- logical_or (n-ary) ------------------------------------------------------------------------------ *)
+Lemma logical_or_sound_p : forall v args self,
+  eval3 v (py_logical_or self args) = or_all3 (eval3 v self) (map (eval3 v) args).
+Proof.
+  intros v args. unfold py_logical_or. cbv zeta.
+  induction args as [|b args IH]; intros self; simpl.
+  - reflexivity.
+  - rewrite IH. unfold or_all3. simpl. now rewrite impl_or_sound_p.
+Qed.
+
+Lemma logical_or2_sound_p : forall v a b, eval3 v (py_logical_or a [b]) = tri_or (eval3 v a) (eval3 v b).
+Proof. intros. now rewrite logical_or_sound_p. Qed.
+
+(* ---- logical_not: De Morgan through the two combinators ------------------------------------------------ *)
+Lemma not_inner_sound : forall v g acc,
+  eval3 v (fold_left (fun new_group leaf => py_impl_and false new_group [[py_invert leaf]]) g acc)
+  = tri_and (eval3 v acc) (tri_not (any3 v g)).
+Proof.
+  intros v g. induction g as [|l g IH]; intros acc; simpl.
+  - now rewrite tri_and_TT_r.
+  - rewrite IH. rewrite impl_and_sound_p by discriminate.
+    rewrite eval3_single, invert_sound_p. fold (any3 v g).
+    now rewrite tri_not_or, tri_and_assoc.
+Qed.
+
+Lemma not_outer_sound : forall v p acc,
+  eval3 v (fold_left (fun new_operands or_group =>
+             py_impl_or new_operands
+               (fold_left (fun new_group leaf => py_impl_and false new_group [[py_invert leaf]]) or_group [])) p acc)
+  = tri_or (eval3 v acc) (tri_not (eval3 v p)).
+Proof.
+  intros v p. induction p as [|g p IH]; intros acc; simpl.
+  - now rewrite tri_or_FF_r.
+  - rewrite IH, impl_or_sound_p, not_inner_sound. simpl. rewrite tri_and_TT_l.
+    fold (eval3 v p). now rewrite tri_not_and, tri_or_assoc.
+Qed.
+
+Lemma logical_not_sound_p : forall v self, eval3 v (py_logical_not self) = tri_not (eval3 v self).
+Proof.
+  intros v self. unfold py_logical_not. cbv zeta.
+  rewrite not_outer_sound. simpl. now rewrite tri_or_FF_l.
+Qed.
+
+(* ---- arbitrary formulas ------------------------------------------------------------------------------- *)
+Lemma build_sound_p : forall v f, py_form_ok f -> eval3 v (py_build f) = feval3 v f.
+Proof.
+  intros v f. induction f as [a|b|f IH|s f IHf g IHg|f IHf g IHg]; cbn [py_build feval3 py_form_ok]; intros H.
+  - unfold py_from_leaf. apply eval3_single.
+  - apply from_bool_sound_p.
+  - rewrite logical_not_sound_p. now rewrite IH.
+  - destruct H as (Hf & Hg & Hs). rewrite logical_and2_sound_p by exact Hs. now rewrite IHf, IHg.
+  - destruct H as (Hf & Hg). rewrite logical_or2_sound_p. now rewrite IHf, IHg.
+Qed.
+
+(* formulas whose identity flags are all false are always consistent: the unflagged statement *)
+Fixpoint no_flags (f : form) : bool :=
+  match f with
+  | FAtom _ | FConst _ => true
+  | FNot f => no_flags f
+  | FAnd s f g => negb s && no_flags f && no_flags g
+  | FOr f g => no_flags f && no_flags g
+  end.
+Lemma no_flags_ok : forall f, no_flags f = true -> py_form_ok f.
+Proof.
+  induction f as [a|b|f IH|s f IHf g IHg|f IHf g IHg]; simpl; intros H; auto.
+  - apply andb_prop in H as [H Hg]. apply andb_prop in H as [Hs Hf].
+    repeat split; auto. destruct s; [discriminate|]. discriminate.
+  - apply andb_prop in H as [Hf Hg]. split; auto.
+Qed.
+Lemma build_sound_noflags_p : forall v f, no_flags f = true -> eval3 v (py_build f) = feval3 v f.
+Proof. intros. apply build_sound_p. now apply no_flags_ok. Qed.
+
+(* Boolean assignments give Boolean values: the two-valued statement is the special case *)
+Lemma lit_two_valued : forall v l, (forall a, v a <> UU) -> lit_eval v l <> UU.
+Proof. intros v [a|a] H; simpl; specialize (H a); destruct (v a); cbv; congruence. Qed.
+Lemma eval3_two_valued_p : forall v (p : cnf), (forall a, v a <> UU) -> eval3 v p <> UU.
+Proof.
+  intros v p H. induction p as [|g p IH]; simpl; [discriminate|].
+  fold (eval3 v p).
+  assert (G : any3 v g <> UU).
+  { induction g as [|l g IHg]; simpl; [discriminate|]. fold (any3 v g).
+    pose proof (lit_two_valued v l H). destruct (lit_eval v l), (any3 v g); cbv; congruence. }
+  destruct (any3 v g), (eval3 v p); cbv; congruence.
+Qed.
+
+(* ---- the hand model used by the correspondence check is the regenerated one -------------------------- *)
+Lemma impl_and_shape_p : forall s a b, py_impl_and s a b = p_impl_and s a b.
+Proof. intros [] a b; reflexivity. Qed.
+
+Lemma fold_left_ext_p : forall {A B} (f g : A -> B -> A), (forall a b, f a b = g a b) ->
+  forall l a, fold_left f l a = fold_left g l a.
+Proof. intros A B f g H l. induction l; intros; simpl; auto. now rewrite H. Qed.
+
+Lemma logical_and_shape_p : forall self args, py_logical_and self args = p_and self args.
+Proof.
+  intros. unfold py_logical_and, p_and, p_collapse. cbv zeta.
+  rewrite (fold_left_ext_p _ (fun acc arg => p_impl_and (fst arg) acc (snd arg))) by (intros; apply impl_and_shape_p).
+  set (x := fold_left _ args self).
+  destruct (py_all x); reflexivity.
+Qed.
+
+Lemma logical_or_shape_p : forall self args, py_logical_or self args = p_or self args.
+Proof.
+  intros. unfold py_logical_or, p_or. cbv zeta.
+  apply fold_left_ext_p. intros. apply impl_or_shape_p.
+Qed.
+
+Lemma not_inner_shape : forall g acc,
+  fold_left (fun new_group leaf => py_impl_and false new_group [[py_invert leaf]]) g acc
+  = acc ++ map (fun l => [invert l]) g.
+Proof.
+  induction g as [|l g IH]; intros acc; simpl.
+  - now rewrite app_nil_r.
+  - rewrite IH. unfold py_impl_and. simpl. rewrite <- app_assoc. simpl.
+    destruct l; reflexivity.
+Qed.
+
+Lemma logical_not_shape_p : forall self, py_logical_not self = p_not self.
+Proof.
+  intros. unfold py_logical_not, p_not. cbv zeta.
+  apply fold_left_ext_p. intros a g. rewrite not_inner_shape. simpl. apply impl_or_shape_p.
+Qed.
+
+Lemma build_shape_p : forall f, py_build f = build f.
+Proof.
+  induction f as [a|b|f IH|s f IHf g IHg|f IHf g IHg]; cbn [py_build build].
+  - reflexivity.
+  - now destruct b.
+  - now rewrite logical_not_shape_p, IH.
+  - now rewrite logical_and_shape_p, IHf, IHg.
+  - now rewrite logical_or_shape_p, IHf, IHg.
+Qed.
